@@ -303,6 +303,11 @@ type ColDef struct {
 	Type                                            byte
 	Flags                                           uint16
 	Decimals                                        byte
+	// Capability-dependent parts (caps.go: EncodeCaps / DecodeColDefCaps); Encode / DecodeColDef ignore them.
+	ExtInfo     string // content of the MariaDB extended type info block (entries, without the block's length prefix)
+	HasDefault  bool   // COM_FIELD_LIST response: a default value follows the fixed part
+	DefaultNull bool
+	Default     string
 }
 
 // Encode renders the column definition payload.
